@@ -1,9 +1,9 @@
 (* Proofs/OtlpProofs.v — theorems about the OTLP conversion model
    (Model/Otlp.v): one row per data point with exact fields, modulo the two
    recorded defect classes (integer precision, timestamp wrap). *)
-From Coq Require Import ZArith List Reals Lia.
+From Coq Require Import ZArith List Reals Lia Sorting.Sorted.
 From Flocq Require Import Core IEEE754.BinarySingleNaN IEEE754.Binary IEEE754.Bits.
-From CS Require Import Base.Prelude Model.Proto Model.ProtoConv Model.Otlp Proofs.ProtoFloatProofs.
+From CS Require Import Base.Prelude Model.Proto Model.ProtoConv Model.Otlp Proofs.ProtoFloatProofs Proofs.ProtoConvProofs.
 Open Scope N_scope.
 
 Lemma Forall2_map_right : forall (A B : Type) (f : A -> B) (l : list A),
@@ -161,3 +161,132 @@ Example otlp_modulo_known_nonvacuous :
   export_to_arrow r = Done (mkOBatch [[104]; [107]]
      [mkORow 1700000000000000000 [109] 13854479828675198976 [Some [120]; Some [55]]]).
 Proof. vm_compute. repeat split; reflexivity. Qed.
+
+(* ==================================================================== *)
+(* labels: resource attributes overwritten by point attributes; within one
+   attribute list the last entry of a key wins *)
+
+Lemma map_get_insert : forall k k' v m,
+  map_get k (map_insert k' v m) = if bytes_eqb k k' then Some v else map_get k m.
+Proof.
+  intros k k' v m. induction m as [|[k1 v1] r IH]; cbn [map_insert map_get]; [reflexivity|].
+  destruct (bytes_eqb k' k1) eqn:E1.
+  - apply bytes_eqb_eq in E1. subst k1. cbn [map_get].
+    destruct (bytes_eqb k k'); reflexivity.
+  - destruct (bytes_ltb k' k1); cbn [map_get]; [reflexivity|].
+    rewrite IH. destruct (bytes_eqb k k1) eqn:E2; [|reflexivity].
+    apply bytes_eqb_eq in E2. subst k1. rewrite bytes_eqb_sym, E1. reflexivity.
+Qed.
+
+(* the last value that an attribute list gives to a key *)
+Fixpoint kv_last (k : bytes) (l : list kv) : option bytes :=
+  match l with
+  | [] => None
+  | e :: r => match kv_last k r with
+              | Some v => Some v
+              | None => if bytes_eqb k (kv_key e) then Some (any_value_to_string (kv_val e)) else None
+              end
+  end.
+
+Lemma fold_insert_get : forall k l m,
+  map_get k (fold_left (fun m e => map_insert (kv_key e) (any_value_to_string (kv_val e)) m) l m)
+  = match kv_last k l with Some v => Some v | None => map_get k m end.
+Proof.
+  intros k. induction l as [|e l IH]; intro m; cbn [fold_left kv_last]; [reflexivity|].
+  rewrite IH, map_get_insert. destruct (kv_last k l); [reflexivity|].
+  destruct (bytes_eqb k (kv_key e)); reflexivity.
+Qed.
+
+Lemma key_values_get : forall k l, map_get k (key_values_to_labels l) = kv_last k l.
+Proof.
+  intros k l. unfold key_values_to_labels. rewrite fold_insert_get.
+  destruct (kv_last k l); reflexivity.
+Qed.
+
+(* label maps are sorted by key, hence free of duplicate keys *)
+Definition klt (a b : bytes * bytes) : Prop := blt (fst a) (fst b).
+
+Lemma map_insert_hd : forall k v m x, klt x (k, v) -> HdRel klt x m -> HdRel klt x (map_insert k v m).
+Proof.
+  intros k v m x Hx Hm. destruct m as [|[k1 v1] r]; cbn [map_insert].
+  - constructor. exact Hx.
+  - inversion Hm; subst. destruct (bytes_eqb k k1); [constructor; exact Hx|].
+    destruct (bytes_ltb k k1); constructor; assumption.
+Qed.
+
+Lemma map_insert_sorted : forall k v m, Sorted klt m -> Sorted klt (map_insert k v m).
+Proof.
+  intros k v m H. induction H as [|[k1 v1] r Hr IH Hhd]; cbn [map_insert].
+  - constructor; constructor.
+  - destruct (bytes_eqb k k1) eqn:E.
+    + apply bytes_eqb_eq in E. subst k1. constructor; [exact Hr|].
+      destruct Hhd; constructor. exact H.
+    + destruct (bytes_ltb k k1) eqn:L.
+      * constructor; [constructor; assumption|]. constructor. exact L.
+      * constructor; [exact IH|]. apply map_insert_hd; [|exact Hhd].
+        unfold klt, blt. cbn [fst]. apply bytes_ltb_total; assumption.
+Qed.
+
+Lemma key_values_sorted : forall l, Sorted klt (key_values_to_labels l).
+Proof.
+  intro l. unfold key_values_to_labels. generalize (@nil (bytes * bytes)) (Sorted_nil klt).
+  induction l as [|e l IH]; intros m H; cbn [fold_left]; [exact H|].
+  apply IH. apply map_insert_sorted. exact H.
+Qed.
+
+Lemma sorted_head_absent : forall k v r, StronglySorted klt ((k, v) :: r) -> map_get k r = None.
+Proof.
+  intros k v r H. inversion H as [|a l Hs Hf]; subst. clear H Hs.
+  induction r as [|[k1 v1] r IH]; cbn [map_get]; [reflexivity|].
+  inversion Hf as [|x l Hx Hr]; subst. unfold klt, blt in Hx. cbn [fst] in Hx.
+  destruct (bytes_eqb k k1) eqn:E.
+  - apply bytes_eqb_eq in E. subst k1. rewrite bytes_ltb_irrefl in Hx. discriminate.
+  - apply IH. exact Hr.
+Qed.
+
+Lemma merge_get : forall k b a, StronglySorted klt b ->
+  map_get k (merge_labels a b) = match map_get k b with Some v => Some v | None => map_get k a end.
+Proof.
+  intros k. unfold merge_labels. induction b as [|[k1 v1] r IH]; intros a Hs; cbn [fold_left map_get]; [reflexivity|].
+  cbn [fst snd]. rewrite IH by (inversion Hs; assumption). rewrite map_get_insert.
+  destruct (bytes_eqb k k1) eqn:E.
+  - apply bytes_eqb_eq in E. subst k1. rewrite (sorted_head_absent k v1 r Hs). reflexivity.
+  - reflexivity.
+Qed.
+
+Definition src_attrs (s : src) : list kv :=
+  match s with SrcN p => np_attrs p | SrcH p => hp_attrs p | SrcS p => sp_attrs p end.
+
+(* otlp_labels: the label of key k in the row of a data point is the last
+   value its own attributes give to k, else what its resource says *)
+Theorem otlp_labels : forall (t : tagged) (k : bytes),
+  map_get k (dp_labels (point_of t))
+  = match kv_last k (src_attrs (tg_src t)) with
+    | Some v => Some v
+    | None => map_get k (tg_res t)
+    end.
+Proof.
+  intros [n res s] k. unfold point_of. cbn [tg_src tg_name tg_res].
+  assert (H : forall attrs,
+     map_get k (merge_labels res (key_values_to_labels attrs))
+     = match kv_last k attrs with Some v => Some v | None => map_get k res end).
+  { intro attrs. rewrite merge_get.
+    - rewrite key_values_get. reflexivity.
+    - apply Sorted_StronglySorted; [|apply key_values_sorted].
+      intros a b c. unfold klt, blt. apply bytes_ltb_trans. }
+  destruct s as [p|p|p]; cbn [src_attrs]; apply H.
+Qed.
+
+Theorem otlp_resource_labels : forall (r : oreq) (t : tagged),
+  In t (all_tagged r) ->
+  exists rm, In rm r /\
+    forall k, map_get k (tg_res t)
+              = match rm_resource rm with Some a => kv_last k a | None => None end.
+Proof.
+  intros r t H. unfold all_tagged in H. apply in_flat_map in H. destruct H as [rm [Hrm Ht]].
+  exists rm. split; [exact Hrm|]. intro k.
+  unfold resource_tagged in Ht. apply in_flat_map in Ht. destruct Ht as [sc [_ Ht]].
+  apply in_flat_map in Ht. destruct Ht as [mt [_ Ht]]. apply in_map_iff in Ht.
+  destruct Ht as [s [Hs _]]. subst t. cbn [tg_res]. unfold resource_labels.
+  destruct (rm_resource rm); [apply key_values_get|reflexivity].
+Qed.
